@@ -496,18 +496,15 @@ where
             (records, tree)
         };
 
-        let delete_ids =
-            records.iter().map(|r| *r.commit()).collect::<Vec<_>>();
-
         // Delete from the database
         let log_type = self.log_type;
+        let id: i64 = (&self.owner).into();
+        let commit = *commit;
         self.client
             .conn_mut(move |conn| {
                 let tx = conn.transaction()?;
                 let events = EventEntity::new(&tx);
-                for id in delete_ids {
-                    events.delete_one(log_type, &id)?;
-                }
+                events.delete_after_commit(log_type, id, &commit)?;
                 tx.commit()?;
                 Ok(())
             })
